@@ -133,6 +133,12 @@ func (s *LinkedLog) ReadWithSize(offset uint64, size uint64) ([]OffsetAndSizeAnd
 	if size > 256*mib {
 		return nil, indexes.OffsetAndSize{}, fmt.Errorf("compacted indexes length too large: %d", size)
 	}
+	// offset and size come from an index: do not allocate for more than the file holds.
+	if fileSize, err := s.getCurrentOffset(); err != nil {
+		return nil, indexes.OffsetAndSize{}, err
+	} else if offset > fileSize || size > fileSize-offset {
+		return nil, indexes.OffsetAndSize{}, fmt.Errorf("record of size %d at offset %d exceeds the file size %d", size, offset, fileSize)
+	}
 	record := make([]byte, size)
 	_, err := s.file.ReadAt(record, int64(offset))
 	if err != nil {
